@@ -98,7 +98,39 @@ def gen_region_stamps(rng, t0, nframes, spacing_choices=SPACINGS):
     return frames, t
 
 
+def gen_rollover_setup(rng):
+    """Layouts where the index file rolls over several times inside one writer session while a
+    narrower data channel keeps one domain (and vice versa for strings): many committed frames
+    under a tiny file-size cap."""
+    chans = [{"key": 1, "index": 0, "dt": "timestamp"}]
+    for k in range(2, 2 + rng.choice([1, 1, 2])):
+        chans.append({"key": k, "index": 1, "dt": rng.choice(["uint8", "uint8", "float32", "int64", "string"])})
+    vals = ValueSrc(chans)
+    cap = rng.choice([40, 40, 64, 100])
+    script = []
+    t = rng.choice([0, 3, 1000])
+    for _ in range(rng.choice([1, 1, 2])):
+        lead = rng.choice([0, 0, 1])
+        frames, tend = gen_region_stamps(rng, t + lead, rng.randrange(3, 8))
+        keys = [c["key"] for c in chans]
+        rng.shuffle(keys)
+        auto = rng.random() < 0.5
+        script.append({"op": "open", "keys": keys, "start": t, "auto": auto})
+        for st in frames:
+            script.append({"op": "write", "frame": [
+                {"k": k, "v": list(st) if k == 1 else vals.take(k, len(st))} for k in keys]})
+            if not auto and rng.random() < 0.8:
+                script.append({"op": "commit"})
+        if not auto:
+            script.append({"op": "commit"})
+        script.append({"op": "close"})
+        t = frames[-1][-1] + 1 + rng.choice([0, 1, 1000])
+    return {"cap": cap, "channels": chans, "script": script}
+
+
 def gen_setup(rng, malformed=False, max_idx=3, max_data=3, min_data=0, allow_reopen=True):
+    if not malformed and rng.random() < 0.2:
+        return gen_rollover_setup(rng)
     """A mostly legal write script: several writer sessions at disjoint times (one may lie
     before existing data, one may be contiguous with the previous one), explicit commits or
     auto-commit, small file-size caps forcing rollover, groups that do not write their index."""
@@ -254,3 +286,18 @@ def positions(setup, key=None):
     for s in starts:
         ps.update([s, s - 1, s + 1])
     return sorted(p for p in ps if 0 <= p <= MAXTS), st
+
+
+def commit_edges(setup_or_ops):
+    """possible domain edges: every frame's last index stamp + 1 (a commit end, hence a possible
+    file-rollover boundary) and every writer start"""
+    ops = setup_or_ops["script"] if isinstance(setup_or_ops, dict) else setup_or_ops
+    out = set()
+    for o in ops:
+        if o["op"] == "open":
+            out.add(o["start"])
+        if o["op"] == "write":
+            for kv in o["frame"]:
+                if kv["v"]:
+                    out.add(kv["v"][-1] + 1)
+    return sorted(x for x in out if 0 <= x <= MAXTS)
